@@ -202,8 +202,9 @@ def check_property(pid, tier, seed):
     known = checklib.load_known()
     violations = []      # (replay path, note)
     known_hits = {}      # finding id -> count
-    proof = checklib.proof_stage(pid)
+    proof = checklib.proof_stage(pid, tier)
     say(f"[check {pid}] proof stage: {proof['discharged']}/{proof['obligations']} theorems audited, axioms={proof['axioms']}, {proof['build_s']}s"
+        + (f", leanchecker {proof['leanchecker']}" if proof.get("leanchecker") else "")
         + ("" if proof["ok"] else "  PROBLEMS: " + "; ".join(proof["problems"])))
     fams = STORE_FAMILIES.get(pid, [])
     cov = dict(families={}, evaluations=0, traces_validated_against_impl=0, samples=[], distinct_nontrivial=0,
